@@ -317,6 +317,29 @@ pub fn run(ctx: &Ctx) {
                     other => ctx.violation(&format!("C02:cli:abnormal-termination:{}", other.describe()), case()),
                 }
             }
+            // output paths that already hold longer content (left by an earlier run): both directions
+            // must leave exactly the new result
+            {
+                let mut r = Rng::fork(ctx.seed, &format!("C02-cli-stale-{}", i));
+                let small = r.bytes(if i % 2 == 0 { 10 } else { 66_000 });
+                let pin = wdp.write(&format!("pin{}.bin", i), &small);
+                let cto = wdp.write(&format!("stale-c{}.ktl", i), &r.bytes(small.len() + 36 + 32 * 3 + 50_000));
+                let pto = wdp.write(&format!("stale-p{}.bin", i), &r.bytes(small.len() + 90_000));
+                let e = Cmd::new(&wdp.path, &["password", "encrypt", pin.to_str().unwrap(), "-o", cto.to_str().unwrap(), "--env-pass"]).pass(w).run();
+                let d = Cmd::new(&wdp.path, &["password", "decrypt", cto.to_str().unwrap(), "-o", pto.to_str().unwrap(), "--env-pass"]).pass(w).run();
+                ctx.eval();
+                let c = std::fs::read(&cto).unwrap_or_default();
+                let got = std::fs::read(&pto).unwrap_or_default();
+                let conforms = matches!(refspec::decode_pass_file(&c, w.as_bytes()), Ok(x) if x.body.complete() && x.body.plaintext() == small);
+                if e.exit == Exit::Timeout || d.exit == Exit::Timeout {
+                    ctx.inconclusive("C02 cli: timeout");
+                } else if e.exit == Exit::Code(0) && d.exit == Exit::Code(0) && got == small && conforms {
+                    ctx.seen("cli: round trip onto output paths that already hold longer content");
+                    ctx.distinct(&format!("cli-stale|{}|{}", i, small.len()));
+                } else {
+                    ctx.violation("C02:cli:round-trip-onto-existing-output-paths-does-not-give-the-original-bytes", json!({"password": w, "len": small.len(), "encrypt_exit": e.exit.describe(), "decrypt_exit": d.exit.describe(), "stderr": format!("{} | {}", e.stderr_s(), d.stderr_s()), "ciphertext_file_len": c.len(), "ciphertext_conforms": conforms, "decrypted_len": got.len()}));
+                }
+            }
             // and the exact password works
             let d = Cmd::new(&wdp.path, &["password", "decrypt", f.to_str().unwrap(), "--env-pass"]).pass(w).run();
             ctx.eval();
@@ -327,7 +350,12 @@ pub fn run(ctx: &Ctx) {
             }
         });
     }
+    if !crate::lib_only() {
+        crate::ttylanes::c02(ctx);
+        ctx.require("tty: typed password round trip", 4);
+    }
     ctx.require("cli: near-miss password rejected", 30);
+    ctx.require("cli: round trip onto output paths that already hold longer content", 6);
     ctx.require("prod: chunks=", 20);
     ctx.require("wrong password -> ", 50);
 }
